@@ -70,6 +70,8 @@ def sh(e):
         return "_"
     if k == "arg":
         return "arg%d" % e[1]
+    if k == "agg":
+        return "%s::%s{%s}" % (e[1].split("::")[-1], e[2], ",".join(sh(a) for a in e[3]))
     return "?"
 
 
